@@ -43,7 +43,7 @@ CONFIG = dict(
          "binds of the routing key to chat-1/chat-2/unknown/dead/wrong-type/empty; bursts of 1-6 messages written by all clients at once "
          "(route: 85% type{gate,chat,hall,room} x group{zoo,nogrp,\"\"} x method{echo,fail,boom,slow,late,tell,nosuch,\"\"}, 15% malformed; id: 0 and "
          "varint boundaries or random, unique per connection also modulo 2^32; 1 message in 64 carries an id >= 2^32 on a serviceable route (known finding D19); payload 80% valid with a case-unique value, else undecodable/empty/wrong type/null); "
-         "new clients that pipeline 1-4 messages behind their handshake while the front's owner goroutine is kept busy (AddSession posted, not yet run; repaired defect D20); re-handshakes on working connections with replies in flight (hs/ack; data packets sent in between are ignored by the reader), handlers whose result cannot be marshalled (zoo.nan), cases that start with the front's service-request counter 1-4 below MaxReqId (wrap); routes that are not valid UTF-8 (the forwarded envelope cannot be serialised); one flood per run: a client that stops reading, pipelines 10080 requests (more than the session's 9999-slot send queue) and resumes; 5 s time steps; a final 45 s flush. One evaluation = one op; observation = per-connection multiset of (kind,id,errflag,payload hex) "
+         "new clients that pipeline 1-4 messages behind their handshake while the front's owner goroutine is kept busy (AddSession posted, not yet run; repaired defect D20); re-handshakes on working connections with replies in flight (hs/ack; data packets sent in between are ignored by the reader), handlers whose result cannot be marshalled (zoo.nan), cases that start with the front's service-request counter 1-4 below MaxReqId (wrap); routes that are not valid UTF-8 (the forwarded envelope cannot be serialised); one flood per run: a client that stops reading, pipelines 10080 requests (more than the session's 9999-slot send queue) and resumes; cluster-view changes (node n2 carrying chat-2 and hall-2 becomes Init/Working/Retiring/Retired while sessions are bound to chat-2; the default route of type hall picks the first working instance); handlers that bind a user id and push the session to the front before completing, with and without waiting (zoo.login / zoo.loginw, first bind and re-bind); 5 s time steps; a final 45 s flush. One evaluation = one op; observation = per-connection multiset of (kind,id,errflag,payload hex) "
          "read by the clients + multiset of handler invocations per service; non-trivial = something was read or invoked",
     trusted_base=[
         "Lean 4.33.0 kernel; axioms audited per theorem (propext, Classical.choice, Quot.sound)",
@@ -59,6 +59,7 @@ CONFIG = dict(
         "a request forwarded to an instance of the wrong type, to a PID without a living actor, or to a handler slower than 30 s is answered by the request-timeout error",
         "routes <= 255 bytes (a route that is not valid UTF-8 is modelled: the forwarded envelope cannot be serialised -> one error response; a genuine U+FFFD in a route is not generated); handler error texts non-empty; handler results JSON-serialisable",
         "the connection stays open until the response is written (session life cycle is C05)",
+        "the user id bound to a session is stamped on later envelopes (msgs.ClientMsg.ID) but nothing a client observes depends on it: login/loginw are modelled as echo-like handlers",
         "a request of a history is one the session's reader delivered: data packets sent between a repeated Handshake packet and its HandshakeAck are ignored by ClientSession.processPacket (modelled in the driver, not a theorem)",
         "a forwarded handler result the client serializer cannot marshal is relayed as a success with an empty body (ProcessForwardMsg ignores the Marshal error; theorem unserialisable_result states it; the spec accepts error or empty success there)",
     ],
